@@ -874,3 +874,35 @@ KINDS = {
     'SplitKey': pie_split, 'SecretData': pie_secret, 'Certificate': pie_certificate,
     'OpaqueObject': pie_opaque,
 }
+
+
+# --------------------------------------------------------------------------------------------
+# pooled RSA key generation (opt-in): CreateKeyPair without paying for prime search each time
+# --------------------------------------------------------------------------------------------
+class _RsaProxy(object):
+    def __init__(self, real):
+        self._real = real
+        self._pool = {}
+        self._next = {}
+        self.pool_size = 3
+
+    def generate_private_key(self, public_exponent, key_size, backend=None):
+        pool = self._pool.setdefault((public_exponent, key_size), [])
+        i = self._next.get((public_exponent, key_size), 0)
+        if len(pool) < self.pool_size:
+            pool.append(self._real.generate_private_key(public_exponent=public_exponent,
+                                                        key_size=key_size))
+        self._next[(public_exponent, key_size)] = i + 1
+        return pool[i % len(pool)]
+
+    def __getattr__(self, name):
+        return getattr(self._real, name)
+
+
+def use_rsa_pool():
+    if not isinstance(crypto_mod.rsa, _RsaProxy):
+        crypto_mod.rsa = _RsaProxy(crypto_mod.rsa)
+
+
+OPEN_POLICY = {'preset': {ot: {op: enums.Policy.ALLOW_ALL for op in enums.Operation}
+                          for ot in enums.ObjectType}}
